@@ -12,8 +12,8 @@ import (
 // Anchors are the constructs of the repository that the rules talk about. They are
 // located through resolved callees / types / data flow, never by line or text.
 type Anchors struct {
-	Main          *ssa.Function
-	RedactClosure *ssa.Function // Run of the cobra command whose Use starts with "redact"
+	Main           *ssa.Function
+	RedactClosure  *ssa.Function // Run of the cobra command whose Use starts with "redact"
 	DecryptClosure *ssa.Function
 	// flag name -> *T variable: the alloc in main and the free variable in a closure
 	FlagAlloc map[string]ssa.Value
